@@ -20,7 +20,8 @@ ID = "C17"
 RULE = ("(a) the full cross product of 144 table variants: all 20736 ordered pairs and all triples via the equality matrix, plus schema, database, aliased-query "
         "and query-builder variants - exhaustive; (b) Hypothesis-generated expressions (every composite term kind) over fields of three tables that share "
         "column names, compared with a reference (table, column) collection computed from the program data. Non-trivial: pairs that are equal but not "
-        "identical or differ in exactly one dimension; expressions mentioning >= 2 tables sharing a column name. distinct = distinct pair / expression.")
+        "identical or differ in exactly one dimension; expressions mentioning >= 2 tables sharing a column name. distinct = distinct pair / expression. Also: every listed kind is hashable; "
+        "tables derived by as_ / for_ / for_portion from tables that were already hashed and rendered equal the same table built directly.")
 ASSUMPTIONS = [
     "Term.__eq__ builds a criterion by design, so terms are outside the equality laws and only subject to the collection check",
     "table identity is the library's documented (name, schema path, alias)",
